@@ -45,7 +45,13 @@ def gen(rng, facts):
             pad = rng.choice([0, 3, C // 4, C // 2 - HDR_LOG, C - HDR_LOG, C - HDR_LOG + 1, C, rng.randint(0, C // 3)])
             c.log(t, lg=rng.randrange(nl), lvl=rng.choice([3, 4, 4, 6, 8]), pad=max(0, pad))
         elif r < 0.68: c.flush(rng.randrange(nt), lg=rng.randrange(nl))
-        elif r < 0.76: c.resume(rng.randrange(nt))
+        elif r < 0.72:
+            # a control request other than a flush on a (possibly full) dropping queue: retried by its caller until it is
+            # accepted, never counted as a drop
+            t = rng.randrange(nt)
+            if rng.random() < 0.5: c.init_bt(t, lg=rng.randrange(nl), cap=rng.choice([1, 2, 3]), flvl=rng.choice([10, 8]))
+            else: c.flush_bt(t, lg=rng.randrange(nl))
+        elif r < 0.78: c.resume(rng.randrange(nt))
         elif r < 0.8: c.exit(rng.randrange(nt))
         elif r < 0.84: c.tick(rng.choice([1, 1000, 1001]))
         else: c.poll()
